@@ -481,6 +481,12 @@ def _get_command_token_processor(
         )
 
 
+def _forwards_items(processor: CommandTokenProcessor) -> bool:
+    while isinstance(processor, CWLMapCommandTokenProcessor):
+        processor = processor.processor
+    return isinstance(processor, CWLForwardCommandTokenProcessor)
+
+
 def _get_command_token_processor_from_input(
     cwl_element: Any,
     port_type: Any,
@@ -569,8 +575,11 @@ def _get_command_token_processor_from_input(
     # Simple type with `inputBinding` specified -> CWLCommandToken
     if command_line_binding is not None:
         if processor is not None:
-            # By default, do not escape composite command tokens
-            if command_line_binding.shellQuote is None:
+            # By default, do not escape composite command tokens: their inner tokens are
+            # escaped when bound. Items forwarded without a binding are escaped here.
+            if command_line_binding.shellQuote is None and not _forwards_items(
+                processor
+            ):
                 command_line_binding.shellQuote = False
                 is_shell_command = True
             processor = _get_command_token_processor(
